@@ -22,8 +22,12 @@ Specs == {[min |-> -1, max |-> -1, align |-> "L", fill |-> " "], [min |-> 4, max
           [min |-> 4, max |-> -1, align |-> "L", fill |-> "*"], [min |-> 12, max |-> -1, align |-> "R", fill |-> "0"],
           [min |-> 4, max |-> 6, align |-> "R", fill |-> " "], [min |-> -1, max |-> 1, align |-> "L", fill |-> " "],
           [min |-> 3, max |-> 3, align |-> "R", fill |-> "_"], [min |-> -1, max |-> 0, align |-> "L", fill |-> " "]}
+\* every amount of padding from none to well over a hundred columns, on both sides (the level field: 4 and 5 characters) -
+\* whatever an implementation writes the fill with (one character at a time, or in blocks of some size), the field has
+\* exactly min characters
+PadSweep == {[min |-> n, max |-> -1, align |-> a, fill |-> " "] : n \in 13..140, a \in {"L", "R"}}
 VARIABLES field, value, spec
-Init == field \in Fields /\ value \in Values(field) /\ spec \in Specs
+Init == field \in Fields /\ value \in Values(field) /\ spec \in (Specs \cup (IF field = "l" THEN PadSweep ELSE {}))
 Next == UNCHANGED <<field, value, spec>>
 Text == IF value = <<"-">> THEN <<"?", "?", "?">> ELSE value
 Cut(t) == IF spec.max >= 0 THEN SubSeq(t, 1, Min(Len(t), spec.max)) ELSE t
